@@ -319,6 +319,11 @@ func init() {
 				if ruleIn(o, "G") && funcHas(o, "(*Buffer).get", "(*Buffer).getAsync") {
 					return true
 				}
+				// every wake-up path needs Buffer.mutex in write mode: a reader that takes it twice (re-entrant RLock) deadlocks
+				// with the first writer that arrives in between and pins it for ever
+				if ruleIn(o, "P") && subjHas(o, "acquire:Buffer.mutex") {
+					return true
+				}
 				// the position handed to the waiter stays valid until the delta is advanced: one hold of the consumer mutex
 				if ruleIn(o, "AT") && funcHas(o, "(*consumer).Get") {
 					return true
